@@ -3,6 +3,7 @@ FUNCTIONS = [
     'circus.watcher:Watcher.notify_event',
     'circus.watcher:Watcher.reap_process',
     'circus.watcher:Watcher.reap_processes',
+    'circus.arbiter:Arbiter.reap_processes',     # the periodic waitpid(-1) loop: every collected worker goes through reap_process
     'circus.watcher:Watcher.spawn_process',
     'circus.watcher:Watcher._start',
     'circus.watcher:Watcher.manage_processes',
